@@ -11,7 +11,7 @@ Local Open Scope N_scope.
 Ltac Zify.zify_post_hook ::= Z.div_mod_to_equations.
 
 Lemma label_at_here m p l :
-  valid_label l -> bytes_at m p (mlen l :: l) -> label_at m p = Some l.
+  valid_label l -> bytes_at m p (mlen l :: l) -> label_at m (mlen m) p = Some l.
 Proof.
   intros [Hl Hw] Hb. unfold label_at.
   pose proof Hb as Hb0. apply bytes_at_cons in Hb0 as [Hg Hb1]. rewrite Hg.
@@ -21,12 +21,12 @@ Proof.
   rewrite (slice_bytes_at m (p + 1) l Hb1). reflexivity.
 Qed.
 
-Lemma hash_find_some m es l pos h :
-  hash_find m es l pos = Ok (Some h) ->
-  exists hl, In (h, pos) es /\ label_at m h = Some hl /\ label_eq hl l = true.
+Lemma hash_find_some m ml es l pos h :
+  hash_find m ml es l pos = Ok (Some h) ->
+  exists hl, In (h, pos) es /\ label_at m ml h = Some hl /\ label_eq hl l = true.
 Proof.
   induction es as [|[h0 t0] es IH]; cbn [hash_find]; [discriminate|].
-  destruct (label_at m h0) as [hl|] eqn:EL; [|discriminate].
+  destruct (label_at m ml h0) as [hl|] eqn:EL; [|discriminate].
   destruct (label_eq hl l && (t0 =? pos)) eqn:E; intros H.
   - injection H as <-. apply andb_true_iff in E as [E1 E2]. apply N.eqb_eq in E2. subst t0.
     exists hl. split; [left; reflexivity|]. split; [exact EL|exact E1].
@@ -43,13 +43,13 @@ Lemma hash_walk_ok m (ok : N -> Prop) bound es :
   Forall (fun e => fst e < bound /\ fst e < 16384) es ->
   Forall (fun e => HashOK m ok (fst e) (snd e)) es ->
   forall rl pos s pos' rest,
-    Reach m ok bound pos s -> hash_walk m es rl pos = Ok (pos', rest) ->
+    Reach m ok bound pos s -> hash_walk m (mlen m) es rl pos = Ok (pos', rest) ->
     exists consumed, rl = consumed ++ rest /\ Reach m ok bound pos' (rev consumed ++ s).
 Proof.
   intros HB HO. induction rl as [|l rl IH]; intros pos s pos' rest HR H; cbn [hash_walk] in H.
   - injection H as <- <-. exists []. split; [reflexivity|exact HR].
-  - destruct (hash_find m es l pos) as [[h|]| | |] eqn:EF; try discriminate.
-    + destruct (hash_find_some _ _ _ _ _ EF) as (hl & Hin & HLa & HEq).
+  - destruct (hash_find m (mlen m) es l pos) as [[h|]| | |] eqn:EF; try discriminate.
+    + destruct (hash_find_some _ _ _ _ _ _ EF) as (hl & Hin & HLa & HEq).
       rewrite Forall_forall in HB, HO. pose proof (HB _ Hin) as [Hb1 Hb2]. pose proof (HO _ Hin) as (l0 & ls0 & e & HL & HT).
       cbn [fst snd] in *.
       pose proof HL as (Hv0 & _ & Hbt & _). rewrite (label_at_here _ _ _ Hv0 Hbt) in HLa. injection HLa as <-.
@@ -142,7 +142,7 @@ Proof. unfold canon. apply map_rev. Qed.
 Lemma hash_acn_ok c : AcnSpec c (hash_acn c).
 Proof.
   intros ok n w w' Hv TB SI (CS & CT & CH) Ho H. unfold hash_acn in H.
-  destruct (hash_walk (w_buf w) (w_hash w) (rev n) hash_root_pos) as [[position rest]| | |] eqn:EW; try discriminate.
+  destruct (hash_walk (w_buf w) (mlen (w_buf w)) (w_hash w) (rev n) hash_root_pos) as [[position rest]| | |] eqn:EW; try discriminate.
   set (b := w_buf w) in *. set (p := mlen b) in *.
   assert (HB : Forall (fun e => fst e < p /\ fst e < 16384) (w_hash w)) by (destruct TB as (_ & _ & X); exact X).
   destruct (hash_walk_ok b ok p (w_hash w) HB CH (rev n) hash_root_pos [] position rest) as (consumed & Erl & HR);
